@@ -29,8 +29,13 @@ TInit ==
 Known == {"accept", "step", "tick", "resp", "end", "preempt", "prime", "cut", "zero"}
 
 \* design level: replay the granted operation on the model worker (render/finish are silent)
+\* grain of atomicity: the real loader opens the cache file ("load"), then reads it ("load_read": what it sees is decided
+\* HERE, a writer may have truncated the file since the open) - module Cache's Load is that read; the open, a mapping of
+\* the file and the removal of a file are implementation sub-steps without a model counterpart (stuttering)
 StepModel(e) ==
-    IF tracking /\ e.w \in Workers /\ pc[e.w] = e.op /\ e.op \in {"probe", "load", "gen", "save_open", "save_write"}
+    IF e.op \in {"load", "load_mapped", "unlink"} THEN UNCHANGED <<cvars, tracking>>
+    ELSE LET mop == IF e.op = "load_read" THEN "load" ELSE e.op IN
+    IF tracking /\ e.w \in Workers /\ pc[e.w] = mop /\ mop \in {"probe", "load", "gen", "save_open", "save_write"}
     THEN WorkerStep(e.w) /\ UNCHANGED tracking
     ELSE /\ UNCHANGED cvars /\ tracking' = FALSE
          /\ (IF tracking THEN RecordDrift(tid, l, e.op) ELSE TRUE)
